@@ -219,7 +219,12 @@ def snap_str(run, fin=None):
 
 
 def prog_tok(prog):
+    # "X k" (job k ends by raising) is "F k" for the model: Worker.run treats a raising job like a returning one
     return ",".join("S" if op[0] == "S" else "C" if op[0] == "C" else "F%d" % op[1] for op in prog) or "-"
+
+
+def prog_show(prog):
+    return ",".join(op[0] if len(op) == 1 else "%s%d" % (op[0], op[1]) for op in prog) or "-"
 
 
 # ------------------------------------------------------------------------------------------------------
@@ -239,6 +244,9 @@ def monitor(run, sc):
     d = pool.__dict__
     idle, busy = d["idle"], d["busy"]
     ni, nb = set.__len__(idle), set.__len__(busy)
+    if run.in_closed_pool:
+        run.violation = ("job-in-closed-pool", run.in_closed_pool + " (close() had already set the closed flag)")
+        return
     if ni + nb > run.mx:
         run.violation = ("over-limit", "%d workers (idle %d + busy %d) with THREADPOOL_SIZE=%d" % (ni + nb, ni, nb, run.mx))
         return
@@ -288,7 +296,9 @@ def judge_rest(run):
                     % (k, " ".join(f["workers"])))
         if rec["status"] == "?":
             return ("job-unanswered", "process() of job %d neither returned nor raised" % k)
-    finished = {op[1] for p in run.progs for op in p if op[0] == "F"}
+    if run.in_closed_pool:
+        return ("job-in-closed-pool", run.in_closed_pool + " (close() had already set the closed flag)")
+    finished = {op[1] for p in run.progs for op in p if op[0] in ("F", "X")}
     for i, ph in enumerate(f["workers"]):
         if ph == "P":
             return ("no-rest", "worker %d is neither blocked nor finished at rest" % i)
@@ -319,6 +329,10 @@ SCENARIOS = [
     (2, 2, [[("S",), ("S",), ("F", 0), ("F", 1), ("S",)]]),
     (1, 2, [[("S",), ("S",), ("F", 0), ("F", 1), ("C",)]]),
     (1, 2, [[("S",), ("S",), ("S",)], [("F", 0), ("F", 1), ("C",)]]),
+    (1, 1, [[("S",)], [("C",)]]),                                     # submit racing with close
+    (1, 2, [[("S",), ("S",)], [("C",)]]),
+    (1, 1, [[("S",), ("X", 0), ("S",)]]),                             # a job that ends by raising
+    (1, 2, [[("S",), ("S",), ("X", 0), ("F", 1), ("S",)], [("C",)]]),
 ]
 
 
@@ -336,7 +350,7 @@ def gen_scenario(rng, big):
             a.append(("S",))
             submitted += 1
         elif r < 0.85 and submitted:
-            tgt.append(("F", rng.randrange(submitted)))
+            tgt.append((rng.choice("FFX"), rng.randrange(submitted)))
         elif r < 0.95:
             tgt.append(("C",))
     if not any(op[0] == "S" for op in a):
@@ -396,7 +410,7 @@ def explore_scenario(ctx, mn, mx, progs, bound, max_runs, nrandom, rng, model_ou
             if sig not in found_sigs:
                 found_sigs.add(sig)
                 ctx.fail(sig, "%s; pool min=%d max=%d, programs %s, schedule %r"
-                         % (bad[1], mn, mx, " | ".join(prog_tok(p) for p in progs), [t for t, _ in sc.trace]),
+                         % (bad[1], mn, mx, " | ".join(prog_show(p) for p in progs), [t for t, _ in sc.trace]),
                          case_of(mn, mx, progs, sc))
         s = snap_str(run)
         if model_outs is not None and getattr(run, "violation", None) is None and run.outcome in ("ok", "deadlock"):
@@ -408,7 +422,7 @@ def explore_scenario(ctx, mn, mx, progs, bound, max_runs, nrandom, rng, model_ou
     for prefix, sc, run in random_order_explore(lambda pol: run_case(pol, mn, mx, progs), rng, bound, max_runs):
         bad, s = handle(sc, run)
         if len(ctx.samples) < 5 and len(sc.trace) > 20 and rng.random() < 0.03:
-            ctx.sample({"min": mn, "max": mx, "programs": [prog_tok(p) for p in progs],
+            ctx.sample({"min": mn, "max": mx, "programs": [prog_show(p) for p in progs],
                         "schedule": [t for t, _ in sc.trace], "final": s})
     for _ in range(nrandom):
         sc, run = run_case(S.random_policy(rng, rng.choice([0.2, 0.5, 0.8])), mn, mx, progs)
@@ -502,7 +516,7 @@ def gen_ops(rng):
             ops.append(("S",))
             submitted += 1
         elif r < 0.92 and submitted:
-            ops.append(("F", rng.randrange(submitted)))
+            ops.append((rng.choice("FFX"), rng.randrange(submitted)))
         elif r < 0.97 and (not closed or rng.random() < 0.3) and len(ops) >= 2:
             ops.append(("C",))
             closed = True
@@ -533,7 +547,7 @@ def _sequential(ctx, n):
                 w = R.holder_of(run, k) if k < len(run.jobs) and run.jobs[k]["status"] == "a" else None
                 toks += ["S", "-" if w is None else str(w)]
                 k += 1
-            elif op[0] == "F":
+            elif op[0] in ("F", "X"):
                 toks += ["F", str(op[1])]
             else:
                 toks += ["C"]
@@ -547,7 +561,7 @@ def _sequential(ctx, n):
             ctx.count("seq:job:" + j["status"][:1])
         bad = judge_rest(run)
         if bad:
-            ctx.fail("pool-seq:" + bad[0], "sequential use: %s; pool min=%d max=%d ops %s" % (bad[1], mn, mx, prog_tok(ops)),
+            ctx.fail("pool-seq:" + bad[0], "sequential use: %s; pool min=%d max=%d ops %s" % (bad[1], mn, mx, prog_show(ops)),
                      {"min": mn, "max": mx, "progs": [[list(o) for o in ops]], "schedule": [t for t, _ in run.sched.trace]})
     outs = common.run_driver("drv_c18", lines)
     ctx.corr_cases += len(lines)
@@ -684,7 +698,7 @@ def replay(ctx, case):
         return 1 if f else 0
     common.repo_on_path()
     sc, run = run_case(S.replay_policy(c["schedule"]), c["min"], c["max"], c["progs"])
-    print("pool min=%d max=%d programs %s" % (c["min"], c["max"], " | ".join(prog_tok([tuple(o) for o in p]) for p in c["progs"])))
+    print("pool min=%d max=%d programs %s" % (c["min"], c["max"], " | ".join(prog_show([tuple(o) for o in p]) for p in c["progs"])))
     print("schedule", c["schedule"])
     print("trace", [(t, l) for t, l in sc.trace])
     print("events", run.events)
